@@ -1,6 +1,7 @@
 """Runs in a fresh interpreter (own PYTHONHASHSEED): executes a batch of tree / query jobs on the
 implementation and prints one line  RESULT <json>.
-job = {"kind": "tree", "specs": [...], "via": "build"|"provider"|"dicts"}
+job = {"kind": "steps", "steps": [{specs, req_h, via, graph}, ...]}   (one fresh FGQuery per step, same interpreter)
+    | {"kind": "tree", "specs": [...], "via": "build"|"provider"|"dicts"}
     | {"kind": "query", "specs": [...]|null, "req_h": bool, "graph": <coqterm.graph_py dump>}
 A query job is answered twice on one FGQuery object and once on a fresh one; the argument graph
 is compared (node order, attributes, adjacency order) with an untouched copy afterwards."""
@@ -20,7 +21,12 @@ def main():
     jobs = json.loads(sys.stdin.read())
     res = []
     for j in jobs:
-        if j["kind"] == "tree":
+        if j["kind"] == "steps":
+            steps = [{"specs": st["specs"], "req_h": st["req_h"], "via": st["via"], "graph": ct.graph_from_py(st["graph"])}
+                     for st in j["steps"]]
+            outs, mutated = fc.run_steps(steps)
+            res.append({"answers": [fc.norm_answer(x) for x in outs], "mutated": mutated})
+        elif j["kind"] == "tree":
             res.append(fc.norm_view(fc.run_tree(j["specs"], j.get("via", "build"))))
         else:
             g = ct.graph_from_py(j["graph"])
